@@ -54,9 +54,14 @@ extern "C" int64_t stub_get_time_offset(Timestamp* self, const Timestamp* ref, u
 }
 
 // ---- symbolic values ----------------------------------------------------------------------------------------------------
-template<class T> static void oi(boost::optional<T>& o) { o.m_init = nondet_bool(); o.m_val = (T)nondet_u64(); }
+#ifdef BLK_CANON
+#define SYM_PRESENT() true            // canonical runs: every optional member present (presence subsets: the other obligations)
+#else
+#define SYM_PRESENT() nondet_bool()
+#endif
+template<class T> static void oi(boost::optional<T>& o) { o.m_init = SYM_PRESENT(); o.m_val = (T)nondet_u64(); }
 static void sstr(std::string& s) { s.m_len = (size_t)vs_range(VS_STRCAP); s.m_fmt = false; for (size_t i = 0; i < VS_STRCAP + 1; i++) s.m_data[i] = (char)nondet_u8(); }
-static void os(boost::optional<std::string>& o) { o.m_init = nondet_bool(); sstr(o.m_val); }
+static void os(boost::optional<std::string>& o) { o.m_init = SYM_PRESENT(); sstr(o.m_val); }
 template<class T> union Box { T v; Box() {} ~Box() {} };
 union EncBox { CdnsEncoder e; EncBox() {} ~EncBox() {} };
 union DecBox { CdnsDecoder d; DecBox() {} ~DecBox() {} };
@@ -141,18 +146,18 @@ static void sym(StorageParameters& v, unsigned nop, unsigned nrr) {
     os(v.sampling_method); os(v.anonymization_method);
 }
 static void sym(CollectionParameters& v, unsigned nif, unsigned nsa, unsigned nvl) {
-    oi(v.query_timeout); oi(v.skew_timeout); oi(v.snaplen); v.promisc.m_init = nondet_bool(); v.promisc.m_val = nondet_bool();
+    oi(v.query_timeout); oi(v.skew_timeout); oi(v.snaplen); v.promisc.m_init = SYM_PRESENT(); v.promisc.m_val = nondet_bool();
     v.interfaces.m_size = nif; v.server_address.m_size = nsa; v.vlan_ids.m_size = nvl;
     for (unsigned i = 0; i < VS_VECCAP; i++) { sstr(v.interfaces.m_data[i]); sstr(v.server_address.m_data[i]); v.vlan_ids.m_data[i] = nondet_u16(); }
     os(v.filter); os(v.generator_id); os(v.host_id);
 }
 static void sym(QueryResponse& v) {
-    v.time_offset.m_init = nondet_bool(); v.time_offset.m_val.m_secs = nondet_u64(); v.time_offset.m_val.m_ticks = nondet_u64();
+    v.time_offset.m_init = SYM_PRESENT(); v.time_offset.m_val.m_secs = nondet_u64(); v.time_offset.m_val.m_ticks = nondet_u64();
     oi(v.client_address_index); oi(v.client_port); oi(v.transaction_id); oi(v.qr_signature_index); oi(v.client_hoplimit); oi(v.response_delay);
     oi(v.query_name_index); oi(v.query_size); oi(v.response_size);
-    v.response_processing_data.m_init = nondet_bool(); sym(v.response_processing_data.m_val);
-    v.query_extended.m_init = nondet_bool(); sym(v.query_extended.m_val);
-    v.response_extended.m_init = nondet_bool(); sym(v.response_extended.m_val);
+    v.response_processing_data.m_init = SYM_PRESENT(); sym(v.response_processing_data.m_val);
+    v.query_extended.m_init = SYM_PRESENT(); sym(v.query_extended.m_val);
+    v.response_extended.m_init = SYM_PRESENT(); sym(v.response_extended.m_val);
     os(v.asn); os(v.country_code); oi(v.round_trip_time);
 }
 static void sym(MalformedMessage& v) {
@@ -254,6 +259,9 @@ static unsigned g_total_tokens;
 static void r_prepare(bool allow_unknown) {
     unsigned nknown = 0;
     for (int i = 0; i < TK_UNK0; i++) if (R.seen & (1u << i)) nknown++;
+#ifdef BLK_CANON
+    allow_unknown = false;          // canonical run: every member present in the value, ascending key order, no unknown members
+#endif
     unsigned nunk = allow_unknown ? (unsigned)vs_range(2) : 0;
     for (unsigned k = 0; k < 2; k++) if (k < nunk) {
         int64_t key = (int64_t)nondet_u64();
@@ -264,9 +272,14 @@ static void r_prepare(bool allow_unknown) {
         R.val[TK_UNK0 + k] = t; R.seen |= (1u << (TK_UNK0 + k));
     }
     r_nmem = nknown + nunk;
+#ifdef BLK_CANON
+    { unsigned n = 0; for (unsigned sl = 0; sl < TK_NSLOT; sl++) if ((R.seen >> sl) & 1u) r_order[n++] = (uint8_t)sl; }
+    for (unsigned i = 0; i < 0; i++) if (i < r_nmem) {
+#else
     __verif_assume(r_nmem <= BLK_MAXM);
     // delivery order: any permutation of the present members
     for (unsigned i = 0; i < BLK_MAXM; i++) if (i < r_nmem) {
+#endif
         unsigned sl = (unsigned)vs_range(TK_NSLOT - 1);
         __verif_assume((R.seen >> sl) & 1u);
         for (unsigned j = 0; j < i; j++) __verif_assume(r_order[j] != sl);
